@@ -1,5 +1,6 @@
 import TorchDataVerif.Props.C01MP
 import TorchDataVerif.Proofs.MPRISound
+import TorchDataVerif.Proofs.MPRIBack
 /-!
 # C01 (multi-process part, iterable datasets) — the open statements of `Props/C01MP.lean`, every snapshot interval
 
@@ -32,5 +33,98 @@ theorem snapshot_sound_iter : snapshot_sound_iter_statement := by
   have hstep : s.snap.step = stepOf c s.numYielded := by rw [hst]; rfl
   rw [hstep] at hse
   exact ⟨hJ.2.1, hny, hse⟩
+
+/-- **`restore_ideal_iter`** — `restore_ideal_iter_statement` of `Props/C01MP.lean`, at full strength (any number
+of workers retired inside the snapshot).  The state built by the restore constructor from (a snapshot equal, up
+to the sampler position, to) the ideal state at a possible snapshot step `m` is observationally the original
+iterator after `m` yields, for every schedule of the resumed run: its yields are a prefix of
+`drop m (Ref.stream c)`, all of it once StopIteration is raised; the `_take_snapshot` assertion never fires;
+`_num_yielded` continues from `m`; and its own stored snapshot is again `idealAt c (stepOf c n)`.
+Proof: the restored state, with fetch positions shifted (`shift`, `run_shift`) and task indices shifted
+(`lift`, `run_lift`), is a quiescent start state (`Base`) of the *virtual* configuration `padCfg c K` — `c` with
+the shards of the workers that had ended padded in front so that they are just about to end again (they re-send
+their notice, as the code does) — whose past is the canonical round robin of `K` slots; the joint invariant
+`J` of `snapshot_sound_iter` runs from there (`base_J`, `run_J`), and `snap_back` / `yields_back` translate its
+conclusions to `c` (`idealE_pad`, `dataItems_pad`). -/
+theorem restore_ideal_iter : restore_ideal_iter_statement := by
+  intro c hv hit hio hne m hms hmle sn hsn as s' hnr hr hd
+  have hvi : c.ValidI := ⟨hv.1, hv.2 hit⟩
+  have hok := shardsOk_of_noErr c hit hvi.2 hne
+  have href : refStream c = Ref.interleave c.shards := by simp [refStream, hit]
+  rw [href] at hmle ⊢
+  exact restored_all c hvi hit hio hok m hms hmle sn hsn as s' hnr hr hd
+
+/-- **`resume_exact_iter`** — full strength.  `state_dict()` after any number `k` of batches of any saving run,
+restored and run under any schedule: after the constructor's replay of `steps_since_snapshot` batches the
+consumer receives exactly `drop k (Ref.stream c)`; nothing lost, repeated or reordered — every snapshot
+interval, uneven / empty shards, workers retired before the snapshot. -/
+theorem resume_exact_iter : resume_exact_iter_statement :=
+  resume_exact_iter_of snapshot_sound_iter restore_ideal_iter
+
+/-- **`chain_iter`** — full strength.  The checkpoint of a resumed iterator after `j` consumer-visible batches
+equals (up to the sampler position) the one of an uninterrupted run after `k + j` batches: checkpoint / resume
+can be chained indefinitely. -/
+theorem chain_iter : chain_iter_statement :=
+  chain_iter_of snapshot_sound_iter restore_ideal_iter
+
+/-! ### Non-vacuity.  `exIt 3` of `Props/C01MP.lean`: three workers with shards of 1, 5 and 3 batches (uneven),
+prefetch factor 2, snapshot interval 3.  Saving run `exItSave` (workers answering in reverse order): checkpoint
+after `k = 7` batches, i.e. between the snapshots at 6 and 9; the snapshot of step 6 holds the retired worker 0
+(`⟨1, true⟩`: its end-of-shard notice was consumed before the 6th batch).  Resumed run `exItResume`: replays batch
+22, delivers 13, 14, stop (worker 0 re-sends its notice).  `exItFull`: the saving run continued to 9 batches. -/
+
+def exItFull : List Action :=
+  exItSave ++ [.next, .work 1, .recv, .next, .work 2, .work 1, .recv, .recv]
+
+theorem exIt_hyps : (exIt 3).WF ∧ (exIt 3).iterable = true ∧ (exIt 3).inOrder = true ∧ NoErr (exIt 3) ∧
+    NoReset exItSave ∧ NoReset exItResume ∧ NoReset exItFull := by
+  refine ⟨⟨⟨by decide, by decide⟩, fun _ => rfl⟩, rfl, rfl, by unfold NoErr; decide, by simp [NoReset, exItSave],
+    by simp [NoReset, exItResume], by simp [NoReset, exItFull, exItSave]⟩
+
+/-- The hypotheses of `snapshot_sound_iter` hold for the saving run, and what it then says: after 7 yields the
+stored snapshot is the ideal state at step `stepOf 7 = 6`, with the retired worker 0 inside. -/
+example : (run (exIt 3) (init (exIt 3)) exItSave).map (fun s => s.obs.contains Obs.workerDied) = some false ∧
+    (run (exIt 3) (init (exIt 3)) exItSave).map
+      (fun s => (s.numYielded, stepOf (exIt 3) s.numYielded, s.snap.step, s.snap.lastW, s.snap.ws)) =
+      some (7, 6, 6, 1, [⟨1, true⟩, ⟨3, false⟩, ⟨2, false⟩]) ∧
+    (∀ s, run (exIt 3) (init (exIt 3)) exItSave = some s → ¬ died s →
+      SnapEq (exIt 3) s.snap (idealAt (exIt 3) (stepOf (exIt 3) s.numYielded))) := by
+  obtain ⟨h1, h2, h3, h4, h5, _, _⟩ := exIt_hyps
+  exact ⟨by decide, by decide, fun s hr hd => (snapshot_sound_iter (exIt 3) h1 h2 h3 h4 exItSave s h5 hr hd).2.2⟩
+
+/-- The hypotheses of `restore_ideal_iter` hold for `m = 6` and the snapshot of the saving run (sampler position
+8, irrelevant), and the resumed run is one of the schedules it covers. -/
+example : SnapStep (exIt 3) 6 ∧ 6 ≤ (oks (refStream (exIt 3))).length ∧
+    SnapEq (exIt 3) ⟨6, 1, 8, [⟨1, true⟩, ⟨3, false⟩, ⟨2, false⟩]⟩ (idealAt (exIt 3) 6) ∧
+    (run (exIt 3) (restore (exIt 3) ⟨6, 1, 8, [⟨1, true⟩, ⟨3, false⟩, ⟨2, false⟩]⟩) exItResume).map
+      (fun s => (s.obs, s.numYielded, s.snap.step, s.snap.lastW, s.snap.ws)) =
+      some ([.item 22, .item 13, .item 14, .stop], 9, 9, 1, [⟨1, true⟩, ⟨5, false⟩, ⟨3, true⟩]) ∧
+    (oks (refStream (exIt 3))).drop 6 = [22, 13, 14] ∧
+    idealAt (exIt 3) 9 = ⟨9, 1, 0, [⟨1, true⟩, ⟨5, false⟩, ⟨3, true⟩]⟩ := by
+  refine ⟨⟨by decide, fun _ => by decide⟩, by decide, ⟨rfl, by decide, by decide, fun h => by cases h⟩, by decide,
+    by decide, by decide⟩
+
+/-- `resume_exact_iter` and `chain_iter` applied to the three concrete runs: the checkpoint of the saving run
+after 7 batches is `(snapshot of step 6, 1)`; the resumed consumer sees `drop 1 [22, 13, 14] = drop 7 stream`;
+and after its 2 visible batches the resumed iterator's checkpoint equals the one of the uninterrupted run
+`exItFull` after 9 batches. -/
+example : (run (exIt 3) (init (exIt 3)) exItSave).map (fun s => (stateDict s).2) = some 1 ∧
+    (run (exIt 3) (init (exIt 3)) exItFull).map (fun s => (yields s.obs, (stateDict s).1.step, (stateDict s).2)) =
+      some ([0, 10, 20, 11, 21, 12, 22, 13, 14], 9, 0) ∧
+    (∀ s₁ s₂, run (exIt 3) (init (exIt 3)) exItSave = some s₁ → ¬ died s₁ →
+      run (exIt 3) (restore (exIt 3) (stateDict s₁).1) exItResume = some s₂ → ¬ died s₂ →
+      (yields s₂.obs).drop (stateDict s₁).2 <+: (oks (refStream (exIt 3))).drop (yields s₁.obs).length) ∧
+    (∀ s₁ s₂ s₃, run (exIt 3) (init (exIt 3)) exItSave = some s₁ → ¬ died s₁ →
+      run (exIt 3) (restore (exIt 3) (stateDict s₁).1) exItResume = some s₂ → ¬ died s₂ →
+      run (exIt 3) (init (exIt 3)) exItFull = some s₃ → ¬ died s₃ →
+      (stateDict s₁).2 ≤ (yields s₂.obs).length →
+      (yields s₃.obs).length = (yields s₁.obs).length + ((yields s₂.obs).length - (stateDict s₁).2) →
+      SnapEq (exIt 3) (stateDict s₂).1 (stateDict s₃).1 ∧ (stateDict s₂).2 = (stateDict s₃).2) := by
+  obtain ⟨h1, h2, h3, h4, h5, h6, h7⟩ := exIt_hyps
+  refine ⟨by decide, by decide, ?_, ?_⟩
+  · intro s₁ s₂ r1 d1 r2 d2
+    exact (resume_exact_iter (exIt 3) h1 h2 h3 h4 exItSave s₁ h5 r1 d1 exItResume s₂ h6 r2 d2).2.1
+  · intro s₁ s₂ s₃ r1 d1 r2 d2 r3 d3 hle hlen
+    exact chain_iter (exIt 3) h1 h2 h3 h4 exItSave s₁ h5 r1 d1 exItResume s₂ h6 r2 d2 exItFull s₃ h7 r3 d3 hle hlen
 
 end TDV.MPR
